@@ -15,7 +15,7 @@ from ..nf import NF
 from ..nfdomain import NFDomain
 from ..program import AnalysisError, Program, unparse, short, walk_no_nested
 from ..report import Report
-from .. import statefx, roms
+from .. import roms, statefx
 from .c01 import update_normal_form, moved_arm
 
 
@@ -178,8 +178,7 @@ def region_definitions(prog: Program, rep: Report) -> None:
     fi = prog.role_func("grid", "ingrid")
     dom = NFDomain()
     it = Interp(prog, dom, depth=0)
-    for k in ("xmin", "xmax", "ymin", "ymax"):
-        it.objenv[f"grid.{k}"] = NF.atom(k)
+    it.objenv.update(roms.limits_objenv(prog))
     res, fr = it.run(fi, dict(X=NF.atom("X"), Y=NF.atom("Y")), "grid")
     # collect the comparisons of the conjunction
     cmps = []
